@@ -360,6 +360,19 @@ func recordBatch(rec *recorder, rng *rand.Rand, trials int, repo string) int {
 				for i, o := range sm.outNames {
 					rr[i] = rows[o]
 				}
+				if ev == "Batch" {
+					// a baseline with values outside the scaled integer range (relu recurrences can grow without bound) cannot be
+					// compared: the trial is not recorded
+					for _, out := range rr {
+						for _, row := range out {
+							for _, v := range row {
+								if v == 2147483647 {
+									return false
+								}
+							}
+						}
+					}
+				}
 				e["rows"] = rr
 				rec.emit(e)
 				return true
